@@ -97,7 +97,7 @@ Print Assumptions C19_get.
 (* non-vacuity: `TEXT/Plain ;A=1;a=2;x="p;\"q\\";y=` parses (the duplicate `a` and the empty `y`
    are dropped, the quoted value is unescaped across the ';'), its serialization
    `text/plain;a=1;x="p;\"q\\"` parses to the same value; `text/plain;A=1;A=2` (F-C19-1, fixed)
-   has one parameter; a non-ASCII type is rejected without a panic. *)
+   has one parameter; a non-ASCII type is rejected without a panic; the two F-C19-2 witnesses. *)
 Example C19_premises_hold :
   let s := [84;69;88;84;47;80;108;97;105;110;32;59;65;61;49;59;97;61;50;59;120;61;34;112;59;92;34;113;92;92;34;59;121;61] in
   let m := mk_mime [116;101;120;116] [112;108;97;105;110] [([97], [49]); ([120], [112;59;34;113;92])] in
@@ -105,7 +105,11 @@ Example C19_premises_hold :
   usv_list s /\ parse s = Ok (Some m) /\ display m = Ok d /\ parse d = Ok (Some m)
   /\ parse [116;101;120;116;47;112;108;97;105;110;59;65;61;49;59;65;61;50]
      = Ok (Some (mk_mime [116;101;120;116] [112;108;97;105;110] [([97], [49])]))
-  /\ parse [233; 47; 98] = Ok None.
+  /\ parse [233; 47; 98] = Ok None
+  (* F-C19-2 (not a clause of C19; recorded for C17): valid_value looks at the raw first ';'-piece of a
+     quoted value only - `a/b;x="a;<U+0001>"` keeps the control character, `a/b;x="a"<U+0001>` loses x *)
+  /\ parse [97;47;98;59;120;61;34;97;59;1;34] = Ok (Some (mk_mime [97] [98] [([120], [97;59;1])]))
+  /\ parse [97;47;98;59;120;61;34;97;34;1] = Ok (Some (mk_mime [97] [98] [])).
 Proof.
   cbv zeta. split; [|vm_compute; repeat split].
   repeat constructor; unfold is_usv; lia.
